@@ -119,13 +119,19 @@ func loadFmt(g *lookup) {
 	g.Set("fmt.Sprint", NewFunc(1, 1, func(v *VM, args []Value, vargs ...Value) []Value {
 		return []Value{String(vaSprint(v, vargs))}
 	}))
-	g.Set("fmt.Print", NewFunc(1, 0, func(v *VM, args []Value, vargs ...Value) []Value {
-		fmt.Fprint(v.stdout, vaSprint(v, vargs))
-		return nil
+	// fmt.Print and fmt.Println have the results of Go's (n int, err error): a call
+	// used as a statement asks for none of them and the VM drops both
+	printed := func(n int, err error) []Value {
+		if err != nil {
+			return []Value{Int(n), Error(err)}
+		}
+		return []Value{Int(n), Nil()}
+	}
+	g.Set("fmt.Print", NewFunc(1, 2, func(v *VM, args []Value, vargs ...Value) []Value {
+		return printed(fmt.Fprint(v.stdout, vaSprint(v, vargs)))
 	}))
-	g.Set("fmt.Println", NewFunc(1, 0, func(v *VM, args []Value, vargs ...Value) []Value {
-		fmt.Fprintln(v.stdout, vaSprint(v, vargs))
-		return nil
+	g.Set("fmt.Println", NewFunc(1, 2, func(v *VM, args []Value, vargs ...Value) []Value {
+		return printed(fmt.Fprintln(v.stdout, vaSprint(v, vargs)))
 	}))
 	g.Set("fmt.Sprintf", NewFunc(2, 1, func(v *VM, args []Value, vargs ...Value) []Value {
 		var va []any
